@@ -222,7 +222,8 @@ Definition blk_step (c : ctx) (rec : rec_t) (child : box) (cst : style) (is_root
         let lim := page_bottom c - bottom_space in
         let '(nc, rs, np', py, O', out', same') :=
           if b_ct r then (Some (b_frag r), b_resume r, b_np r, ls_pos s, O1, out, same)
-          else if can_break && overflows lim content_bottom then (None, b_resume r, b_np r, ls_pos s, O1, out, same)
+          (* the child is discarded: so is the break found inside it (the incoming next_page is kept) *)
+          else if can_break && overflows lim content_bottom then (None, b_resume r, ls_np s, ls_pos s, O1, out, same)
           else if can_break && overflows lim border_bottom then
             let '(res2, cur_fin2, out2, same2) :=
               rec (ls_pos s) (child_mt c cst is_root pie_nc cur_fin) (bottom_space + cpb + cbb) sub pie_nc cur_fin in
